@@ -144,6 +144,7 @@ structure Inv (s : State) : Prop where
   noRead : ∀ a n k took rs, s.pc a ≠ .aRead n k took rs
   cTakeOk : ∀ a n ver, s.pc a = .cTake n ver → (s.box n).used = true ∧ ver ≤ (s.box n).ver ∧
     ((s.box n).ver = ver → (s.box n).taken = false → (s.box n).pub = true)
+  cRemoveOk : ∀ a n f, s.pc a = .cRemove n f → (s.node n).fut = f
   allocUsed : ∀ n, (s.box n).alloc = true → (s.box n).used = true
   noBad : s.bad = false
 
